@@ -933,7 +933,7 @@ class Sim:
                     break
             else:
                 self.stat('counter_credit_checked')
-        self.sample_all(allowed)
+        self.sample_all(allowed | getattr(self, 'nested_allowed', set()))
         self.check_sem()
 
     def p_supervise(self):
@@ -1225,7 +1225,15 @@ class Sim:
                 step_kind = sim.cur_step_kind
                 sim.stat('interleaved_result_inside_scan_' + where)
                 before = {j.jid for j in sim.jobs.values() if j.parts.get(0, {}).get('ready_proc')}
-                sim.p_result()
+                # what the scan itself may already have resolved in this pass
+                sim.nested_allowed = {
+                    j.jid for j in sim.jobs.values()
+                    if j.kind == 'apply' and j.t_acc is not None and j.hard
+                    and sim.clock.t >= j.t_acc + j.hard}
+                try:
+                    sim.p_result()
+                finally:
+                    sim.nested_allowed = set()
                 for j in sim.jobs.values():
                     if j.kind == 'apply' and j.parts[0]['ready_proc'] and j.jid not in before:
                         j.result_phase = (where, sim.scan_step)
